@@ -134,9 +134,12 @@ class Aliases:
     `state = cast(ScopeState, self.scope_state)`): rules compare expressions after expanding them, so that introducing or
     removing such a temporary does not change a verdict."""
 
-    def __init__(self, fn: ast.AST):
+    def __init__(self, fn: ast.AST, calls: tuple = ()):
+        """calls: names of functions whose call (with plain arguments) may be looked through as well, e.g. ("parse",) makes
+        `parsed = parse(value)` … `parsed.expressions` read as `parse(value).expressions`"""
         import copy
         self._copy = copy
+        self._calls = calls
         counts: dict = {}
         rhs: dict = {}
         for n in ast.walk(fn):
@@ -163,10 +166,12 @@ class Aliases:
                 rhs[name] = v
         self.map = rhs
 
-    @staticmethod
-    def _chain(e) -> bool:
+    def _chain(self, e) -> bool:
         while isinstance(e, ast.Attribute):
             e = e.value
+        if isinstance(e, ast.Call) and isinstance(e.func, ast.Name) and e.func.id in self._calls and not e.keywords \
+                and all(isinstance(a, (ast.Name, ast.Constant)) for a in e.args):
+            return True
         return isinstance(e, ast.Name)
 
     def expand(self, node: ast.AST, depth: int = 4) -> ast.AST:
